@@ -310,7 +310,9 @@ func (c *Ctx) sharingRules(ia *interpAnchors, reg *registry) {
 				fmt.Sprintf("%s: the value of its %s is `%s`, not the object itself (`%s`); a composite object would be copied and the copies would diverge", e.key, k, bad, want[k]))
 		}
 	}
-	c.floor("OP-SHARE", 15)
+	c.floor("OP-SHARE", 22)
+	// creating operators allocate their result during the call (ext_w1.go)
+	c.creationRules(ia, reg)
 
 	// put and putinterval write into the operand's own storage
 	for _, op := range []string{"put", "putinterval"} {
